@@ -1452,18 +1452,23 @@ class TypeSystemSerializer:
                 with xf.element("types"):
                     # In order to export the same types that we imported, we
                     # also emit the (redundant) predefined types
-                    for predefined_type_name in sorted(typesystem._predefined_types):
+                    redeclared_type_names = set(typesystem._predefined_types)
+
+                    # A DocumentAnnotation which was extended through the API is emitted like a redeclared one, so
+                    # that it is found at the same place after loading the descriptor again
+                    if typesystem.contains_type(_DOCUMENT_ANNOTATION_TYPE, True):
+                        document_annotation = typesystem.get_type(_DOCUMENT_ANNOTATION_TYPE)
+                        if [f.name for f in document_annotation.features] != [FEATURE_BASE_NAME_LANGUAGE]:
+                            redeclared_type_names.add(_DOCUMENT_ANNOTATION_TYPE)
+
+                    for predefined_type_name in sorted(redeclared_type_names):
                         predefined_type = typesystem.get_type(predefined_type_name)
                         self._serialize_type(xf, predefined_type)
 
                     for type_ in sorted(typesystem.get_types(), key=lambda t: t.name):
                         # We do not want to serialize our implicitly added DocumentAnnotation.
-                        # If it was defined by the user, it is in `typesystem._predefined_types`
-                        # and serialized in the loop before.
-                        if type_.name == _DOCUMENT_ANNOTATION_TYPE and (
-                            type_.name in typesystem._predefined_types
-                            or [f.name for f in type_.features] == [FEATURE_BASE_NAME_LANGUAGE]
-                        ):
+                        # If it was defined or extended by the user, it was serialized in the loop before.
+                        if type_.name == _DOCUMENT_ANNOTATION_TYPE:
                             continue
 
                         self._serialize_type(xf, type_)
